@@ -186,6 +186,26 @@ def run(ctx):
                       f"{cname}.{name}: the negate arm does not build {dual} over restriction.Negate of every child", node=ni)
     ctx.floor("R3", 6)
 
+    # ---- R4 CNF of an any-of distributes over EVERY conjunctive alternative ------------------------------
+    oc = P.func("pkgcore.restrictions.boolean", "OrRestriction.cnf_solutions")
+    dist = []
+    for lp in [n for n in A.body_walk(oc.node) if isinstance(n, ast.For) and isinstance(n.target, ast.Name)]:
+        for st in lp.body:
+            if isinstance(st, ast.Assign) and isinstance(st.value, ast.ListComp) and len(st.value.generators) == 2 and isinstance(st.targets[0], ast.Name):
+                acc = st.targets[0].id
+                its = {A.unparse(g.iter) for g in st.value.generators}
+                if its == {acc, lp.target.id}:
+                    dist.append((lp, st))
+    ctx.check("R4", oc, len(dist) == 1, "cnf-distribution", "OrRestriction.cnf_solutions multiplies the accumulated clauses by each conjunctive alternative in turn (one cross product per and-group)",
+              "OrRestriction.cnf_solutions no longer takes one cross product per conjunctive alternative: `|| ( ( a b ) ( c d ) )` yields clauses that are not equivalent to the tree")
+    if dist:
+        lp, st = dist[0]
+        elt = A.unparse(st.value.elt)
+        names = [g.target.id for g in st.value.generators if isinstance(g.target, ast.Name)]
+        ctx.check("R4", oc, all(n in elt for n in names) and "+" in elt, "cnf-clause-extension", "each new clause is an old clause extended by one literal of the alternative", node=st)
+    rets = A.returns(oc.node)
+    ctx.check("R4", oc, any(A.unparse(r.value) == "[]" for r in rets), "cnf-empty-or", "an any-of without children has no clauses listed (handled before distribution)")
+
 
 MUTANTS = [
     {"name": "and-match-returns-wrong-polarity", "file": "src/pkgcore/restrictions/boolean.py", "old": "            if not rest.match(vals):\n                return self.negate\n        return not self.negate", "new": "            if not rest.match(vals):\n                return self.negate\n        return self.negate if not self.restrictions else not self.negate", "rule": "R1"},
